@@ -1,6 +1,6 @@
 #!/bin/bash
 # runs every registered check (tier $1, default quick) and prints one line per property
-cd /verif
+cd "$(dirname "$0")/.."
 T=${1:-quick}
 for p in $(python3 -c "import json; print(' '.join(c['property_id'] for c in json.load(open('MANIFEST.json'))['checks']))"); do
   s=$(date +%s); ./check $p $T > /tmp/runall-$p.log 2>&1; rc=$?; e=$(date +%s)
